@@ -344,7 +344,18 @@ func (e *Engine) RunProperty(id, tier string, seed, timeout int) *CheckRun {
 	sort.Strings(order)
 	// attribution: an obligation belongs to this property if its clause is tagged with it,
 	// or it is untagged and its function is tagged with it or has no tag at all (closure member)
+	// every clause of a contract that some function of this run applies at a call site is an
+	// assumption of this property's proofs: it belongs to the property whatever it is tagged with
+	usedShort := map[string]bool{}
+	for _, rep := range run.Reports {
+		for _, u := range rep.UsedCtr {
+			usedShort[shortName(u)] = true
+		}
+	}
 	relevant := func(rep *FuncReport, name string) bool {
+		if usedShort[rep.Fn] {
+			return true
+		}
 		if ps, ok := rep.ClauseProps[name]; ok {
 			for _, p := range ps {
 				if p == id {
@@ -403,7 +414,9 @@ func (run *CheckRun) Report(e *Engine, writeBaseline, verbose bool) int {
 		for _, d := range r.failing {
 			matched := false
 			for _, k := range known {
-				if k.Fixed || k.Property != id || k.Obligation != r.Name {
+				// a recorded finding is identified by its obligation; it may surface under every property
+				// whose proofs use that contract
+				if k.Fixed || k.Obligation != r.Name {
 					continue
 				}
 				desc := d.Obl.Where + " " + d.Obl.Label + " " + modelString(d.Res.Model)
